@@ -74,6 +74,36 @@ fn hash_bytes<T: std::hash::Hash>(t: &T) -> Vec<u8> {
     h.0
 }
 
+/// A live typed x25519-dalek secret held by a party of an `xs.*` session.
+enum XSecret {
+    Eph(x25519_dalek::EphemeralSecret),
+    Reu(x25519_dalek::ReusableSecret),
+    Sta(x25519_dalek::StaticSecret),
+}
+type XCell = std::cell::RefCell<Option<XSecret>>;
+fn xs_party(e: &Value) -> Result<String, String> {
+    Ok(format!("xs:{}", e["p"].as_str().ok_or("xs: missing p")?))
+}
+fn xs_slot(e: &Value, key: &str) -> Result<String, String> {
+    Ok(format!("xw:{}", e[key].as_str().ok_or("xs: missing wire slot")?))
+}
+fn xs_wire(ctx: &Ctx, e: &Value, key: &str) -> Result<[u8; 32], String> {
+    match ctx.get(&xs_slot(e, key)?)? {
+        Reg::Bytes(b) if b.len() == 32 => {
+            let mut a = [0u8; 32];
+            a.copy_from_slice(b);
+            Ok(a)
+        }
+        _ => Err("xs: wire slot is empty".into()),
+    }
+}
+fn xs_secret(ctx: &Ctx, e: &Value) -> Result<std::rc::Rc<dyn std::any::Any>, String> {
+    match ctx.get(&xs_party(e)?) {
+        Ok(Reg::Any(a)) => Ok(a.clone()),
+        _ => Ok(std::rc::Rc::new(XCell::new(None))),
+    }
+}
+
 fn res_ok<T, E>(r: &Result<T, E>) -> bool {
     r.is_ok()
 }
@@ -182,6 +212,115 @@ pub fn run(op: &str, e: &Value, ctx: &mut Ctx) -> Result<Value, String> {
             };
             Ok(json!({"pk": jbytes(pk.as_bytes()), "ss": jbytes(ss.as_bytes()), "contributory": ss.was_contributory(),
                       "theirs": jbytes(theirs.as_bytes())}))
+        }
+        // ================= X25519 sessions (Xproto.tla): live typed secrets and wire slots ==========
+        "xs.new" => {
+            let sk = arr32(inp(e, 0)?)?;
+            let s = match e["kind"].as_str().unwrap_or("static") {
+                "ephemeral" => XSecret::Eph(x25519_dalek::EphemeralSecret::random_from_rng(ScriptRng(sk.to_vec(), 0))),
+                "reusable" => XSecret::Reu(x25519_dalek::ReusableSecret::random_from_rng(ScriptRng(sk.to_vec(), 0))),
+                _ => XSecret::Sta(x25519_dalek::StaticSecret::from(sk)),
+            };
+            ctx.set(&xs_party(e)?, Reg::Any(std::rc::Rc::new(XCell::new(Some(s)))));
+            Ok(json!({}))
+        }
+        "xs.drop" => {
+            ctx.set(&xs_party(e)?, Reg::None);
+            Ok(json!({}))
+        }
+        "xs.publish" => {
+            let any = xs_secret(ctx, e)?;
+            let cell = any.downcast_ref::<XCell>().ok_or("xs: not a secret")?;
+            let pk = match cell.borrow().as_ref() {
+                Some(XSecret::Eph(s)) => Some(x25519_dalek::PublicKey::from(s)),
+                Some(XSecret::Reu(s)) => Some(x25519_dalek::PublicKey::from(s)),
+                Some(XSecret::Sta(s)) => Some(x25519_dalek::PublicKey::from(s)),
+                None => None,
+            };
+            match pk {
+                Some(pk) => {
+                    ctx.set(&xs_slot(e, "w")?, Reg::Bytes(pk.as_bytes().to_vec()));
+                    Ok(json!({"live": true, "u": jbytes(pk.as_bytes()), "to_bytes": jbytes(&pk.to_bytes())}))
+                }
+                None => Ok(json!({"live": false})),
+            }
+        }
+        "xs.inject" => {
+            let u = arr32(inp(e, 0)?)?;
+            ctx.set(&xs_slot(e, "w")?, Reg::Bytes(u.to_vec()));
+            Ok(json!({"u": jbytes(&u)}))
+        }
+        "xs.copy" => {
+            let u = xs_wire(ctx, e, "w")?;
+            ctx.set(&xs_slot(e, "w2")?, Reg::Bytes(u.to_vec()));
+            Ok(json!({"u": jbytes(&u)}))
+        }
+        "xs.alias" => {
+            // the adversary re-encodes the key on the wire: value + p when that fits below 2^255, top bit as requested
+            let u = xs_wire(ctx, e, "w")?;
+            let mut v = u;
+            v[31] &= 127;
+            let p = {
+                let mut p = [0xffu8; 32];
+                p[0] = 0xed;
+                p[31] = 0x7f;
+                p
+            };
+            // canonical value of the low 255 bits
+            let ge_p = (0..32).rev().find_map(|i| if v[i] != p[i] { Some(v[i] > p[i]) } else { None }).unwrap_or(true);
+            if ge_p {
+                let mut borrow = 0i32;
+                for i in 0..32 {
+                    let d = v[i] as i32 - p[i] as i32 - borrow;
+                    borrow = (d < 0) as i32;
+                    v[i] = (d & 0xff) as u8;
+                }
+            }
+            if e["addp"].as_bool().unwrap_or(false) {
+                let mut w = [0u8; 32];
+                let mut carry = 0u32;
+                for i in 0..32 {
+                    let s = v[i] as u32 + p[i] as u32 + carry;
+                    w[i] = s as u8;
+                    carry = s >> 8;
+                }
+                if carry == 0 && w[31] < 128 {
+                    v = w;
+                }
+            } else {
+                v = u;
+                v[31] &= 127;
+            }
+            v[31] |= (uint(e, "top")? as u8) << 7;
+            ctx.set(&xs_slot(e, "w")?, Reg::Bytes(v.to_vec()));
+            Ok(json!({"u": jbytes(&v)}))
+        }
+        "xs.dh" => {
+            let theirs_bytes = xs_wire(ctx, e, "w")?;
+            let theirs = x25519_dalek::PublicKey::from(theirs_bytes);
+            let any = xs_secret(ctx, e)?;
+            let cell = any.downcast_ref::<XCell>().ok_or("xs: not a secret")?;
+            let mut slot = cell.borrow_mut();
+            let ss = match slot.take() {
+                // EphemeralSecret::diffie_hellman consumes the secret: the party is left without one
+                Some(XSecret::Eph(s)) => Some(s.diffie_hellman(&theirs)),
+                Some(XSecret::Reu(s)) => {
+                    let r = s.diffie_hellman(&theirs);
+                    *slot = Some(XSecret::Reu(s));
+                    Some(r)
+                }
+                Some(XSecret::Sta(s)) => {
+                    let r = s.diffie_hellman(&theirs);
+                    *slot = Some(XSecret::Sta(s));
+                    Some(r)
+                }
+                None => None,
+            };
+            match ss {
+                Some(ss) => Ok(json!({"live": true, "ss": jbytes(ss.as_bytes()), "to_bytes": jbytes(&ss.to_bytes()),
+                                      "contributory": ss.was_contributory(), "theirs": jbytes(theirs.as_bytes())})),
+                None => Ok(json!({"live": false})),
+            }
         }
         // ================= Ristretto =================================================
         "ris.decompress" => {
@@ -343,6 +482,23 @@ pub fn run(op: &str, e: &Value, ctx: &mut Ctx) -> Result<Value, String> {
             let b = ris_arg(ctx, inp(e, 1)?)?;
             let ct: bool = a.ct_eq(&b).into();
             Ok(json!({"ok": a == b, "ct": ct, "cc": a.compress() == b.compress()}))
+        }
+        // equality of the WIRE types is equality of the 32 bytes, through every equality the type offers
+        "enc.eq" => {
+            let a = arr32(inp(e, 0)?)?;
+            let b = arr32(inp(e, 1)?)?;
+            let (eq, ct, h) = match e["kind"].as_str().unwrap_or("") {
+                "ristretto" => {
+                    let (x, y) = (CompressedRistretto(a), CompressedRistretto(b));
+                    (x == y, bool::from(x.ct_eq(&y)), hash_bytes(&x) == hash_bytes(&y))
+                }
+                "edwards" => {
+                    let (x, y) = (curve25519_dalek::edwards::CompressedEdwardsY(a), curve25519_dalek::edwards::CompressedEdwardsY(b));
+                    (x == y, bool::from(x.ct_eq(&y)), hash_bytes(&x) == hash_bytes(&y))
+                }
+                k => return Err(format!("enc.eq: unknown kind {k}")),
+            };
+            Ok(json!({"eq": eq, "ct": ct, "hash_eq": h}))
         }
         "ris.double_and_compress_batch" => {
             let ps = ris_points(ctx, &e["in"])?;
